@@ -46,6 +46,7 @@ fn main() {
         ("search", "C03") => c03::search(seed, n),
         ("search", "C07") => c07::search(seed, n),
         ("corr", "C07") => c07::corr(seed, n),
+        ("corr", "C10") => c10::corr(seed, n),
         ("corr", "C02") => c02::corr(seed, n),
         ("probe", "C02") => c02::probe(seed, n),
         ("corr", "C20") => c20::corr(seed, n),
